@@ -8,7 +8,7 @@
      failed t  : t with state FAILED and an exception detail naming t's pilot. *)
 From Coq Require Import ZArith List Bool.
 From RP Require Import Gen.StatesTables PilotDeath.Model PilotDeath.Oracle PilotDeath.Proofs.
-From RP Require States.Model States.Inst States.PilotEnd.
+From RP Require States.Model States.Inst States.PilotEnd States.DeathRace.
 Import ListNotations.
 Open Scope Z_scope.
 
@@ -120,3 +120,16 @@ Theorem C13_pilot_end_is_observed :
 Proof. exact pilot_end_is_observed. Qed.
 Print Assumptions C13_pilot_end_is_observed.
 End PilotSide.
+
+(* a state notification for a task and the death of its pilot are handled by
+   two threads; both run under the tasks lock, so one comes first.  In either
+   order at most one final state is announced and it is the state the task
+   ends in -- for every pair (current state, notified state) *)
+Module RaceSide.
+Import RP.States.Model RP.States.Inst RP.States.DeathRace.
+Theorem C13_death_race_one_final :
+  forall cur tgt : tstate,
+    one_final (order_ud cur tgt) = true /\ one_final (order_du cur tgt) = true.
+Proof. exact death_race_one_final. Qed.
+Print Assumptions C13_death_race_one_final.
+End RaceSide.
